@@ -4,7 +4,7 @@
    CPython side: Spec/Lnotab.v (readers addr2line / colines, assemblers asm_pre310 / asm_310). *)
 From PCD Require Import Base.PyBase Model.LineTable Spec.Lnotab Proofs.C10_Statements
   Proofs.LT_ExpandCollapse Proofs.LT_Lnotab Proofs.LT_310.
-From PCD Require Base.PyImp Gen.SrcLines Proofs.SrcLinesTie.
+From PCD Require Base.PyImp Gen.SrcLines Proofs.SrcLinesTie Proofs.SrcMapTie.
 
 (* The property for co_lnotab: for every line program (3.7 or 3.8/3.9 assembler) and every code length n,
    the decoded mapping gives each instruction offset the line PyCode_Addr2Line gives, and re-encoding
@@ -104,6 +104,15 @@ Proof.
   intros i; apply SrcLinesTie.to_citem_tie.
 Qed.
 Print Assumptions C10_collapse_conditions_are_the_source.
+
+(* stage 3, encoder side: both branches of mapping_to_items (the section walk of co_linetable with its NameError on an
+   empty mapping, the entry emission of co_lnotab with its TypeError on an instruction without line), translated
+   statement by statement, are the model's for ALL mappings *)
+Theorem C10_mapping_to_items_is_the_source : forall m,
+  PCD.Gen.SrcLines.MappingToItemsLt.run m = mapping_to_items m true /\
+  PCD.Gen.SrcLines.MappingToItemsLnotab.run m = mapping_to_items m false.
+Proof. intros m. split; [apply SrcMapTie.mapping_to_items_lt_tie | apply SrcMapTie.mapping_to_items_lnotab_tie]. Qed.
+Print Assumptions C10_mapping_to_items_is_the_source.
 
 (* non-vacuity of the tie: the translated loops really run (three splitting iterations here) *)
 Example C10_translated_loops_run :
